@@ -2,7 +2,7 @@
 C04 — every lvalue designates exactly its object's bytes and bits.
 
 Property theorems only (helper lemmas: Lemmas/BitFieldLemmas.lean, Lemmas/FrameLemmas.lean, Lemmas/AllocaLemmas.lean,
-Lemmas/LvalLemmas.lean).
+Lemmas/LvalLemmas.lean, Lemmas/CopyLemmas.lean).
 
 Family 1 — bit-fields.  `bfAssignT` / `bfLoadT` (Model/BitField.lean) are the meaning of the instruction sequences
 chibicc prints for `s.f = v` and for reading `s.f` (the sequences themselves and the arithmetic they print are
@@ -13,6 +13,10 @@ every 1 ≤ w ≤ 8·size, every o with o + w ≤ 8·size, every old content of 
 import ChibiVerif.Model.BitField
 import ChibiVerif.Spec.C04Spec
 import ChibiVerif.Lemmas.BitFieldLemmas
+import ChibiVerif.Lemmas.FrameLemmas
+import ChibiVerif.Lemmas.AllocaLemmas
+import ChibiVerif.Lemmas.LvalLemmas
+import ChibiVerif.Lemmas.CopyLemmas
 
 namespace ChibiVerif.Props.C04
 open ChibiVerif.Gen.C04 ChibiVerif.BitField ChibiVerif.Spec.C04
@@ -112,5 +116,189 @@ example : (bfAssignT .ulong 40 24 0#64 (-1 : BitVec 64)).unit.toNat = 0xffffffff
 theorem C04_bf_types_covered (t : BfType) :
     t.usize.bytes = t.implSize ∧ bfLogical t.implUnsigned t.implBool = bfUnsigned t := by
   cases t <;> decide
+
+/-! ## Family 2: the frame (assign_lvar_offsets) -/
+section Frame
+open ChibiVerif.Frame
+open ChibiVerif.Gen.Declspec (alignTo)
+
+/-- **C04 (frame).**  For every list of locals and parameters (any sizes ≥ 0, any alignments > 0, any choice of
+    stack-passed parameters): the objects are pairwise disjoint; those of the frame lie inside
+    `[rbp - stack_size, rbp)` and their offset from %rbp is a multiple of their alignment (`max(16, align)` for an
+    array of at least 16 bytes); stack-passed parameters start at `rbp + 16` or above on 8-byte boundaries (so they
+    overlap neither the saved %rbp, nor the return address, nor the frame); `stack_size` is a multiple of 16.
+    (%rbp itself is a multiple of 16 at run time by the psABI, so offsets that are multiples of an alignment ≤ 16 are
+    aligned addresses; alignments above 16 are *not* honoured for automatic objects — chibicc does not realign the
+    stack — see the evidence notes.) -/
+theorem C04_frame_disjoint (body params : List Var) (hwf : ∀ v ∈ body ++ params, 0 ≤ v.size ∧ 0 < v.align) :
+    (frameSlots body params).Pairwise Slot.Disjoint ∧
+    (assignLvarOffsets body params).stackSize % 16 = 0 ∧
+    (frameSlots body params).map (·.size) = (body ++ params).map (·.size) ∧
+    ∀ s ∈ frameSlots body params,
+      (s.stack = true → 16 ≤ s.off ∧ s.off % 8 = 0) ∧
+      (s.stack = false → -(assignLvarOffsets body params).stackSize ≤ s.off ∧ s.off + s.size ≤ 0 ∧ s.off % s.align = 0) := by
+  have hok := loopInput_ok body params hwf
+  obtain ⟨h1, h2, h3⟩ := assignLocals_spec (loopInput body params) FRAME_BOTTOM0 (by decide) hok
+  have hb : 0 ≤ (assignLocals FRAME_BOTTOM0 (loopInput body params)).2 := by
+    have : FRAME_BOTTOM0 = 0 := rfl
+    omega
+  obtain ⟨a1, a2, a3⟩ := alignTo_spec _ 16 hb (by decide)
+  refine ⟨h2, a3, ?_, ?_⟩
+  · unfold frameSlots assignLvarOffsets
+    simp only
+    rw [slotsOf_sizes, loopInput_sizes]
+  · intro s hs
+    obtain ⟨s1, s2⟩ := h3 s hs
+    refine ⟨fun h => ⟨(s1 h).1, (s1 h).2.1⟩, fun h => ?_⟩
+    obtain ⟨c1, c2, c3, _⟩ := s2 h
+    have : FRAME_BOTTOM0 = 0 := rfl
+    refine ⟨?_, by omega, c3⟩
+    show -(stackSize _) ≤ _
+    unfold stackSize
+    omega
+
+/-- non-vacuity: `void f(long a, …6 more…, long g, struct{char c[24]} s) { char x; int y[5]; _Alignas(8) char z; }`-like
+    frame: two stack parameters, an over-aligned array, mixed sizes -/
+example :
+    frameSlots [⟨1, 8, false, false⟩, ⟨20, 4, true, false⟩, ⟨1, 1, false, false⟩]
+               [⟨8, 8, false, false⟩, ⟨8, 8, false, true⟩, ⟨24, 1, false, true⟩]
+      = [⟨-8, 1, 8, false⟩, ⟨-32, 20, 16, false⟩, ⟨-33, 1, 1, false⟩, ⟨-48, 8, 8, false⟩, ⟨16, 8, 8, true⟩, ⟨24, 24, 8, true⟩] ∧
+    (assignLvarOffsets [⟨1, 8, false, false⟩, ⟨20, 4, true, false⟩, ⟨1, 1, false, false⟩]
+               [⟨8, 8, false, false⟩, ⟨8, 8, false, true⟩, ⟨24, 1, false, true⟩]).stackSize = 48 := by
+  decide
+
+end Frame
+
+/-! ## Family 3: alloca blocks and VLAs (builtin_alloca) -/
+section Alloca
+open ChibiVerif.Alloca
+
+/-- **C04 (alloca, whole histories).**  From the state the prologue leaves (`rsp = bottom = rbp - stack_size`, a
+    multiple of 16), after every sequence of pushes, pops, program stores and `alloca(n)` calls that does not pop an
+    empty stack: the temporaries `[rsp, bottom)` lie below every block; every block returned is 16-aligned and lies
+    inside `[bottom, rbp - stack_size)`, i.e. below the locals; each block lies entirely below all earlier ones
+    (pairwise disjoint). -/
+theorem C04_alloca (frameLow : Int) (m : Mem) (hfl : frameLow % 16 = 0) (ops : List Op) (s : State) (bs : List Block)
+    (h : run (init frameLow m) ops = .ok (s, bs)) :
+    s.rsp ≤ s.bottom ∧ s.bottom ≤ frameLow ∧ s.bottom % 16 = 0 ∧
+    (∀ b ∈ bs, b.addr % 16 = 0 ∧ s.bottom ≤ b.addr ∧ b.addr + (b.size : Int) ≤ frameLow) ∧
+    bs.Pairwise (fun a b => b.addr + (b.size : Int) ≤ a.addr) := by
+  obtain ⟨i1, i2, _, i4, i5⟩ := run_inv ops (init frameLow m) ⟨Int.le_refl _, Int.le_refl _, hfl⟩ s bs h
+  exact ⟨i1.tmp, i2, i1.al, i4, i5⟩
+
+/-- non-vacuity: `f(x, alloca(10))`-like history: a push, an alloca with a temporary live, another push, a second
+    alloca, two pops -/
+example : (match run (init 4096 (fun _ => 0)) [.push 7, .alloca 10, .push 9, .alloca 40, .pop, .pop] with
+           | .ok (s, bs) => some (s.rsp, s.bottom, bs)
+           | .error _ => none) = some (4032, 4032, [⟨4080, 16⟩, ⟨4032, 48⟩]) := by
+  decide
+
+/-- **C04 (one alloca).**  In a state whose temporaries lie below `bottom`, `alloca(n)` returns the block
+    `[bottom', bottom)` with `bottom' = bottom - size`; the temporaries — exactly `bottom - rsp` bytes — are moved down
+    by `size` with their contents intact (the ascending byte copy is correct because the destination is below the
+    source), and no byte at or above `bottom'` is written: neither the new block, nor an earlier block, nor a local. -/
+theorem C04_alloca_step (s : State) (hinv : s.rsp ≤ s.bottom) (n : BitVec 64) :
+    ∃ s' blk, step s (.alloca n) = .ok (s', some blk) ∧
+      blk.addr = s'.bottom ∧ blk.addr + (blk.size : Int) = s.bottom ∧ blk.size = allocaSize n ∧
+      s'.rsp ≤ s.rsp ∧ s'.bottom - s'.rsp = s.bottom - s.rsp ∧ s'.frameLow = s.frameLow ∧
+      (∀ i : Nat, (i : Int) < s.bottom - s.rsp → s'.mem (s'.rsp + i) = s.mem (s.rsp + i)) ∧
+      (∀ a : Int, s'.bottom ≤ a → s'.mem a = s.mem a) :=
+  alloca_step s hinv n
+
+/-- **C04 (alloca size).**  The reserved size is a multiple of 16 and, for requests below 2^32 - 15 (the emitted
+    `and $0xfffffff0, %edi` works on 32 bits), at least the requested size and less than 16 bytes more. -/
+theorem C04_alloca_size (n : BitVec 64) :
+    allocaSize n % 16 = 0 ∧ (n.toNat + 15 < 2 ^ 32 → n.toNat ≤ allocaSize n ∧ allocaSize n < n.toNat + 16) :=
+  ⟨allocaSize_mod n, allocaSize_ge n⟩
+
+example : allocaSize 1 = 16 ∧ allocaSize 16 = 16 ∧ allocaSize 17 = 32 ∧ allocaSize 0 = 0 := by decide
+/-- the bound is sharp: a request of 2^32 - 15 bytes reserves nothing (documented limit, see evidence) -/
+example : allocaSize (BitVec.ofNat 64 (2 ^ 32 - 15)) = 0 := by decide
+
+/-- **C04 (blocks keep their contents).**  Between any two points of a function's execution, what the generated code
+    does on its own account — pushes, pops, further allocas with their relocation of temporaries — never writes at or
+    above `bottom`: every live alloca block / VLA and every local keeps its bytes unless the program stores to it. -/
+theorem C04_alloca_contents (ops : List Op) (s : State) (hinv : Inv s) (hnw : ∀ op ∈ ops, op.isWrite = false)
+    (s' : State) (bs : List Block) (h : run s ops = .ok (s', bs)) (a : Int) (ha : s.bottom ≤ a) :
+    s'.mem a = s.mem a :=
+  run_preserves ops s hinv hnw s' bs h a ha
+
+example : Inv (init 4096 (fun _ => 0)) := ⟨Int.le_refl _, Int.le_refl _, by decide⟩
+
+end Alloca
+
+/-! ## Family 4: lvalue paths (struct_ref, get_struct_member, new_add, gen_addr) -/
+section Lval
+open ChibiVerif.Lval
+
+/-- **C04 (member / element address).**  For every object (node with address `a`) of a type the parser can build and
+    every path of `.name`, `->name` and `[i]` steps: if C designates a sub-object (address `a'`, type `t'`) then the
+    parser's elaboration succeeds, has that type, and `gen_addr` of the resulting node computes exactly `a'` — the base
+    plus the sum of the member offsets (anonymous structs/unions contribute the offsets along the path that naming
+    them would give), indices scaled by `sizeof` of the element (by the run-time `vla_size` for VLA elements), pointer
+    steps reading the pointer where it is stored.  If C designates nothing the elaboration reports an error. -/
+theorem C04_member_addr (env : Env) (path : List Step) (node : Node) (a : Int)
+    (ha : genAddr env node = .ok a) (hwf : node.ty.allWf = true) :
+    match designate env a node.ty path with
+    | some (a', t') => ∃ n', elabPath node path = .ok n' ∧ n'.ty = t' ∧ genAddr env n' = .ok a'
+    | none => ∃ e, elabPath node path = .error e :=
+  elabPath_spec env path node a ha hwf
+
+/-- `struct { int a; struct { char b; union { short c; long d; }; }; int e[3]; } s[2]` at 1000 -/
+def exTy : Ty :=
+  .arr (.agg 40 (.cons (some "a") 0 (.scalar 4)
+    (.cons none 8 (.agg 16 (.cons (some "b") 0 (.scalar 1)
+        (.cons none 8 (.agg 8 (.cons (some "c") 0 (.scalar 2) (.cons (some "d") 0 (.scalar 8) .nil))) .nil)))
+    (.cons (some "e") 24 (.arr (.scalar 4) 3) .nil)))) 2
+
+example : exTy.allWf = true := by decide
+/-- `s[1].d` (through two anonymous levels) and `s[1].e[2]` -/
+example : (designate ⟨fun _ => 0⟩ 1000 exTy [.index 1, .dot "d"]).map (·.1) = some 1056 := by decide
+def exAddr (path : List Step) : Option Int :=
+  match elabPath (.var 1000 exTy) path with
+  | .ok n => (match genAddr ⟨fun _ => 0⟩ n with | .ok a => some a | .error _ => none)
+  | .error _ => none
+example : exAddr [.index 1, .dot "d"] = some 1056 := by decide
+example : exAddr [.index 1, .dot "e", .index 2] = some 1072 := by decide
+
+/-- **C04 (anonymous members).**  `struct_ref` through anonymous structs/unions yields the offset sum of the explicit
+    path, within a number of loop trips bounded by the nesting depth. -/
+theorem C04_anonymous_member (env : Env) (node : Node) (nm : String) (s : Nat) (ms : Members) (a : Int)
+    (hty : node.ty = .agg s ms) (ha : genAddr env node = .ok a) :
+    match ms.locate nm with
+    | none => structRef (ms.depth + 1) node nm = .error .noSuchMember
+    | some (o, t) => ∃ n', structRef (ms.depth + 1) node nm = .ok n' ∧ n'.ty = t ∧ genAddr env n' = .ok (a + o) :=
+  structRef_spec env (ms.depth + 1) node nm s ms a hty (Nat.le_refl _) ha
+
+/-- **C04 (VLA element size).**  The hidden local `vla_size` that scales indices into a VLA holds `sizeof` of the
+    VLA type, at every nesting (`int a[n][m][k]`). -/
+theorem C04_vla_size (b : Ty) (n : Nat) (h : (Ty.vla b n).wf = true) : (Ty.vla b n).vlaSizeVal = (Ty.vla b n).sizeof :=
+  vlaSizeVal_eq_sizeof b n h
+
+example : (Ty.vla (.vla (.arr (.scalar 4) 3) 5) 7).wf = true ∧ (Ty.vla (.vla (.arr (.scalar 4) 3) 5) 7).vlaSizeVal = 420 := by decide
+
+end Lval
+
+/-! ## Family 5: aggregate copies and zero fill -/
+section Copy
+open ChibiVerif.Copy
+
+/-- **C04 (aggregate copy).**  The byte loop of `store` (struct assignment), `push_struct` (pass by value) and
+    `copy_struct_mem` (return by value) copies exactly `size` bytes, byte i to byte i, and writes nothing outside
+    `[dst, dst + size)` — for disjoint objects, for `x = x`, and whenever the destination starts below the source. -/
+theorem C04_copy (size : Nat) (m : Copy.Mem) (src dst : Int) (h : dst ≤ src ∨ src + size ≤ dst) :
+    (∀ i : Nat, i < size → copyBytes m src dst size (dst + i) = m (src + i)) ∧
+    (∀ a : Int, a < dst ∨ dst + size ≤ a → copyBytes m src dst size a = m a) :=
+  copyBytes_spec size m src dst h
+
+example : (copyBytes (fun a => BitVec.ofInt 8 a) 100 200 3) 202 = 102#8 ∧ (copyBytes (fun a => BitVec.ofInt 8 a) 100 200 3) 203 = 203#8 := by
+  decide
+
+/-- **C04 (zero fill).**  ND_MEMZERO zeroes exactly `[rbp + offset, rbp + offset + size)`. -/
+theorem C04_memzero (m : Copy.Mem) (rbp offset : Int) (size : Nat) (a : Int) :
+    memzero m rbp offset size a = if rbp + offset ≤ a ∧ a < rbp + offset + size then 0 else m a :=
+  repStosb_spec size m 0 (rbp + offset) a
+
+end Copy
 
 end ChibiVerif.Props.C04
